@@ -244,3 +244,29 @@ Qed.
 Theorem names_fields_complete : sfrows_complete sysfield_rows = true.
 Proof. pose proof sysfields_ok as H. apply andb_true_iff in H as [_ H]. exact H. Qed.
 
+
+(* ------------------------------------------------------------------ every native call of the method fails *)
+Lemma all_tables_ok : forallb ablock_ok all_blocks && ablocks_complete ladder_blocks all_blocks = true.
+Proof. vm_compute. reflexivity. Qed.
+
+Theorem allfail_contract : forall b, In b all_blocks ->
+  Forall2 (fun c g => (known_class (l_plat b) (l_meth b) (l_site b) c = false ->
+                       gout_ok (all_demanded (l_plat b) (l_meth b) (l_site b) c) g = true)
+                      /\ gout_ok (Some (all_outcome (l_plat b) (l_meth b) (l_site b) c)) g = true) (conds (l_plat b)) (l_outs b).
+Proof.
+  intros b Hin. pose proof all_tables_ok as H. apply andb_true_iff in H as [H _].
+  pose proof (proj1 (forallb_forall _ _) H b Hin) as Hb. unfold ablock_ok in Hb. apply forallb2_Forall2 in Hb.
+  eapply Forall2_imp; [|exact Hb]. cbv beta. intros c g Hq.
+  apply andb_true_iff in Hq as [Ha Hm]. split; [|exact Hm]. intro Hk. rewrite Hk in Ha. exact Ha.
+Qed.
+
+Theorem allfail_complete : ablocks_complete ladder_blocks all_blocks = true.
+Proof. pose proof all_tables_ok as H. apply andb_true_iff in H as [_ H]. exact H. Qed.
+
+(* 0 and -1 in a native slot that a field copies arrive in that field, for every probed row *)
+Theorem falsy_slots_carried : forall u, In u usage_rows -> u_falsy_bad u = [].
+Proof.
+  intros u Hin. pose proof usage_ok as H. apply andb_true_iff in H as [H _].
+  pose proof (proj1 (forallb_forall _ _) H u Hin) as Hu. unfold row_ok in Hu.
+  apply andb_true_iff in Hu as [_ Hf]. destruct (u_falsy_bad u); [reflexivity | discriminate].
+Qed.
